@@ -292,6 +292,10 @@ def run_scenario(shim, sbase, name, setup, target, mode, stats, rng, model_ok, t
             ie = impl_effects(ops, sb.root)
             if name == "init":
                 ie = ["init"] if ie else []
+            # the journals are append-only side records: where exactly their writes sit among the other
+            # effects matters to no property (their content is compared by the C11 correspondence)
+            nolog = lambda l: [t for t in l if not (t == "hlog" or t.startswith("blog ") or t.startswith("delblog "))]
+            me, ie = nolog(me), nolog(ie)
             if me != ie:
                 stats["corr_failures"].append({"seed": None, "steps": setup + [target], "i": len(setup), "step_name": target.name,
                                                "diffs": ["effect order: goit=%s model=%s" % (ie, me)]})
